@@ -10,7 +10,7 @@ What is modelled, function by function, as the code in `/repo/src/soxr.c` is now
 | `soxr_output_1ch` (657) | `out1` — flush if flushing, process, output |
 | `soxr_output_no_callback` (673) | `outputNoCb` — sequential loop over the channels, `done` = the LAST channel's count, conversion (`interleave` / `rint-clip`) channel after channel with the shared `seed`, `clips +=` |
 | `soxr_output` (700) | `output` / `pullLoop` — the pull loop with the registered input function |
-| `soxr_process` (766) | `process` — flush request decoding, `soxr_i_for_o`, the both-split path (`splitLoop`, as written: input and output of channel `u` inside ONE loop) and the generic path |
+| `soxr_process` (766) | `process` — flush request decoding, `soxr_i_for_o`, the latched-error test (commit 27b24c1: before EITHER path), the both-split path (`splitLoop`, as written: input and output of channel `u` inside ONE loop) and the generic path |
 | `soxr_set_input_fn`, `soxr_set_io_ratio` (engines exist), `soxr_clear` (RESET_ON_CLEAR recipes), `soxr_delay` | `step` |
 
 An **engine** is any state machine (`Engine σ α`): the model never looks inside `σ`.  The frame rule — channel `i`'s operation
@@ -226,6 +226,7 @@ def process (E : Engine σ α) (cfg : Cfg α β) (s : St σ) (inb : Option (InBu
   let ilen := procIlen cfg inb ilen0 wantIdone olen
   let s0 : St σ := procFlush cfg s inb ilen0 flushReq wantIdone olen
   if outPresent = false ∧ inb.isNone then { st := s0, idone := ilen, odone := 0, out := blank cfg.ch }
+  else if s0.error.isSome then { st := s0, idone := 0, odone := 0, out := blank cfg.ch }   -- sticky on both paths (27b24c1)
   else if cfg.isplit ∧ cfg.osplit then
     let r := splitLoop E cfg s0.flushing inb ilen olen 0 s0.eng s0.seed
     { st := { s0 with eng := r.1, clips := s0.clips + r.2.2.1.sum, seed := r.2.2.2.1, clipsBy := addV s0.clipsBy r.2.2.1 },
